@@ -9,6 +9,7 @@ import (
 	"errors"
 	"fmt"
 	"os"
+	"runtime/debug"
 	"strings"
 	"time"
 )
@@ -107,6 +108,9 @@ func main() {
 func safeHandle(line string) (res string) {
 	defer func() {
 		if r := recover(); r != nil {
+			if os.Getenv("VERIF_DEBUG") != "" {
+				fmt.Fprintf(os.Stderr, "panic: %v\n%s\n", r, debug.Stack())
+			}
 			res = "panic -"
 		}
 	}()
